@@ -72,6 +72,10 @@ func runCase(c Case) *hx.Failure {
 	if c.Sink != nil {
 		return runSink(c)
 	}
+	// a runtime abort (stack overflow through a cyclic structure, concurrent map access) cannot be
+	// recovered: the case is written ahead so that the driver can report it (crash:inflight)
+	hx.WriteInflight(c)
+	defer hx.ClearInflight()
 	classes := []string{"kind." + c.Kind}
 	nontrivial := false
 	finish := func(f *hx.Failure, extra ...string) *hx.Failure {
@@ -461,7 +465,8 @@ func accessMatrix(yield func(Case) bool) {
 			{"doc", "doc(c)"}, {"doc-call", "doc(c())"}, {"doc-idx", "doc(c[0])"}, {"doc-idx-neg", "doc(c[-9])"}, {"doc-dot", "doc(c.a)"}, {"doc-dot-dot", "doc(c.a.b)"},
 			{"doc-dot-call", "doc(c.m())"}, {"doc-idx-idx", "doc(c[0][1])"}, {"doc-expr", "doc(c == null)"},
 			{"interpolate", "\"{{c}} {{c[0]}} {{c[-9]}} {{c.a}}\""}, {"type", "type(c)"}, {"dumpenv", "dumpenv()"},
-			{"new-from", "new(c)"}, {"new-super", "new({\"super\" : [c]})"}, {"new-super-raw", "new({\"super\" : c})"}, {"new-init", "new({\"init\" : c})"}, {"new-init-args", "new({\"init\" : c}, 1, 2)"},
+			{"new-from", "new(c)"}, {"new-self-super", "c.super := [c]\nnew(c)"}, {"new-cyclic-super", "d := {\"super\" : [c]}\nc.super := [d]\nnew(d)"},
+			{"new-diamond-super", "new({\"super\" : [c, c]})"}, {"new-super", "new({\"super\" : [c]})"}, {"new-super-raw", "new({\"super\" : c})"}, {"new-init", "new({\"init\" : c})"}, {"new-init-args", "new({\"init\" : c}, 1, 2)"},
 		} {
 			if !mk(f.form, f.src) {
 				return
